@@ -258,6 +258,39 @@ def stateful_element_oracle(ck, rng, n):
                                   "(run %d of one Pipeline object)" % (kind, got, want, rep + 1),
                                   {"processor": proc, "factors": fs, "input": x, "run": rep + 1, "got": got, "want": want})
                     break
+    # the published <var>_values list handed to user code: a consumer (a later node, or the caller between two runs) that
+    # changes it IN PLACE must not change what the next run of the same Pipeline object sweeps over
+    from harness.lib import components as HC
+    for how in ("node-sorts-in-place", "caller-reverses-between-runs", "caller-pops-between-runs"):
+        vals = [3.0, 1.0, 2.0]
+        nodes = [{"processor": "FloatValueDataSource", "parameters": {"value": 2.0}},
+                 {"processor": "FloatMultiplyOperation",
+                  "derive": {"parameter_sweep": {"parameters": {"factor": "t"}, "variables": {"t": {"values": list(vals)}}, "collection": "FloatDataCollection"}}}]
+        if how == "node-sorts-in-place":
+            nodes.append({"processor": HC.VerifSortInPlaceContextProcessor})
+        try:
+            pipe = Pipeline(nodes)
+            outs = []
+            for rep in (0, 1, 2):
+                res = pipe.process(Payload(None, ContextType({})))
+                outs.append(([e.data for e in res.data], list(res.context.get_value("t_values")) if how != "node-sorts-in-place" else None))
+                pub = res.context.get_value("t_values")
+                if how == "caller-reverses-between-runs":
+                    pub.reverse()
+                elif how == "caller-pops-between-runs" and len(pub) > 1:
+                    pub.pop()
+                runs += 1
+        except Exception as ex:  # noqa
+            ck.fail_input("C03:sweep-depends-on-earlier-runs:" + how, "three runs of one Pipeline object (%s): %r" % (how, ex),
+                          {"kind": "published-list-mutated", "how": how, "values": vals})
+            continue
+        want = [2.0 * v for v in vals]
+        bad = [i for i, (el, pv) in enumerate(outs) if el != want or (pv is not None and pv != vals)]
+        if bad:
+            ck.fail_input("C03:sweep-depends-on-earlier-runs:" + how,
+                          "explicit sequence t = %s; %s; run %d of one Pipeline object yields elements %s and t_values %s, the declared sequence gives %s"
+                          % (vals, how, bad[0] + 1, outs[bad[0]][0], outs[bad[0]][1], want),
+                          {"kind": "published-list-mutated", "how": how, "values": vals, "runs": [list(o[0]) for o in outs]})
     return runs
 
 
